@@ -174,6 +174,11 @@ func corpus() []desc {
 				[]servlib.Req{get(), {Method: "POST", Body: []byte("0123456789")}, get()}, nil))
 		}
 	}
+	// Response.SkipBody on a response that announces a body: the connection must close (not for HEAD / 204 / 304)
+	for _, st := range []int{200, 204, 304, 404} {
+		c = append(c, hist(servlib.Cfg{}, []servlib.Req{get(), get(), get()}, [][]servlib.Op{nil, {{K: "status", N: st}, {K: "skipbody"}}}))
+		c = append(c, hist(servlib.Cfg{}, []servlib.Req{get(), {Method: "HEAD"}, get()}, [][]servlib.Op{nil, {{K: "status", N: st}, {K: "skipbody"}}}))
+	}
 	// error responses always close
 	c = append(c, hist(servlib.Cfg{}, []servlib.Req{get(), {Raw: []byte("BAD\x01 / HTTP/1.1\r\n\r\n")}, get()}, nil))
 	return c
@@ -239,8 +244,13 @@ func gen(r *rand.Rand, i int) desc {
 		case 2:
 			ops = append(ops, servlib.Op{K: "close"}, servlib.Op{K: "hdrconn", V: []byte(hlib.Pick(r, connValues))})
 		case 3:
-			if r.Intn(3) == 0 {
+			switch r.Intn(4) {
+			case 0:
 				ops = append(ops, servlib.Op{K: "timeout"})
+			case 1:
+				ops = append(ops, servlib.Op{K: "skipbody"})
+			case 2:
+				ops = append(ops, servlib.Op{K: "status", N: hlib.Pick(r, []int{204, 304, 404})}, servlib.Op{K: "skipbody"})
 			}
 		}
 		d.Sc.Ops = append(d.Sc.Ops, ops)
@@ -372,10 +382,9 @@ func run(d desc) hlib.Case {
 	return hlib.Case{Coq: coq, Key: keyFor(allVals), Sig: sig, Kind: "hist", Size: size}
 }
 
+// (the former finding close-option-after-htab was repaired in /repo c40b715)
 func keyFor(vals []string) string {
-	if hasTab(vals) {
-		return "close-option-after-htab"
-	}
+	_ = hasTab(vals)
 	return ""
 }
 
